@@ -1607,6 +1607,15 @@ def nm_oracle(case, I):
         if o["cache"] is not None and not vec_eq(wt, o["cache"][0], True):
             found.append(("NmmcResult.average_trace", "stale-trace-cache",
                           "cached average_trace is not the current weighted mean", {"obj": idx}))
+        if o["keep"] and len(o["runs_trace"]) == o["ntrajs"]:
+            want_rt = [[float(fr(v)) for v in t["trace"]] for _, t in E.rel]
+            if o["runs_trace"] != want_rt:
+                found.append(("NmmcResult._add_trace", "runs-trace-misaligned",
+                              "runs_trace is not the list of traces of the sampled trajectories, in order",
+                              {"obj": idx, "got": o["runs_trace"], "want": want_rt}))
+        if not o["keep"] and o["runs_trace"]:
+            found.append(("NmmcResult._add_trace", "runs-trace-without-keep",
+                          "runs_trace filled although keep_runs_results is off", {"obj": idx}))
         if o["keep"] and len(o["runs_trace"]) != o["ntrajs"]:
             found.append(("NmmcResult._add_trace", "runs-trace-includes-deterministic",
                           "len(runs_trace)=%d but len(trajectories)=%d (traces of deterministic "
